@@ -12,7 +12,9 @@ from .driver import Program, pack
 from .pp import *
 
 
-def make(pid, macro, profile, idx, seed, gates=None, heavy=False):
+def make(pid, macro, profile, idx, seed, gates=None, heavy=False, amap=False):
+    """amap: later async steps are synchronous callbacks under FutureExt::map, which run whatever the value is - so a step
+    that is entered although an earlier one failed is visible in the counters (and_then callbacks would hide it)"""
     r = rng(seed, pid)
     is_async, is_try, is_spawn = KINDS[macro]
     carrier = "res" if (is_async or idx % 2 == 0) else "opt"
@@ -22,6 +24,8 @@ def make(pid, macro, profile, idx, seed, gates=None, heavy=False):
         for s in range(d):
             if s >= 1 and not is_async:
                 styles[(b, s)] = ["and_then", "then"][(idx + b + s + r.randrange(2)) % 2]
+            if s >= 1 and is_async and amap:
+                styles[(b, s)] = "amap"
             if s >= 1 and r.random() < 0.5:
                 captures.add((b, s))
             if not is_async and r.random() < 0.3:
@@ -88,6 +92,10 @@ def programs(tier, seed):
         for prof, gates in lst:
             i += 1
             ps.append(make("p%04d" % i, macro, prof, i, seed, gates=gates, heavy=(tier == "thorough" and gates > 0)))
+    # steps with a single active branch that are not the last one (awaited directly, no try_join!), map-style later steps
+    for macro, prof in (("try_join_async", (3,)), ("try_join_async", (1, 3)), ("try_join_async", (3, 1)), ("try_join_async_spawn", (1, 3)), ("try_join_async", (2, 3))):
+        i += 1
+        ps.append(make("p%04d" % i, macro, prof, i, seed, gates=0, amap=True))
     return ps
 
 
